@@ -328,6 +328,7 @@ class Twin:
         if float(mv).is_integer() and wlp.get("maxint", True):
             mv = int(mv)
         self.wl = cls(max_volume=mv, auto_split=wlp.get("autosplit", True), diti_mode=wlp.get("diti", False), **args)
+        self.cfg = {"maxv": wlp["maxv"], "autosplit": wlp.get("autosplit", True)}
         self.prev_recs = []
         self.prev_hist = [self._hist_copy(lw) for lw in self.lws]
         self.fullhist = bool(prog.get("flags", {}).get("fullhist"))
@@ -576,6 +577,23 @@ class Twin:
                     lw.condense_log(op["n"])
             elif name == "emit":
                 a = self._emit(op)
+            elif name == "setconfig":
+                # the public attributes of the worklist are assigned between operations
+                new = dict(self.cfg)
+                for key in ("maxv", "autosplit"):
+                    if key in op:
+                        new[key] = op[key]
+                cents = unit * 100
+                unitc = int(cents) if cents.denominator == 1 else 0
+                a = {"maxv": new["maxv"], "maxc": new["maxv"] * unitc, "autosplit": new["autosplit"]}
+                if not (0 < a["maxc"] < 2**31):
+                    raise RuntimeError("unknown abstract operation setconfig outside the exact grid")
+                if "maxv" in op:
+                    mv = vol_float(op["maxv"], unit)
+                    wl.max_volume = int(mv) if float(mv).is_integer() and op.get("maxint", True) else mv
+                if "autosplit" in op:
+                    wl.auto_split = op["autosplit"]
+                self.cfg = new
             elif name in ("evo_aspirate", "evo_dispense"):
                 lw = self.lws[op["lw"]]
                 spec = self.prog["lw"][op["lw"]]
